@@ -194,6 +194,23 @@ func runC12(c *Ctx, n, t int, tag string, plan c12Plan, fail func(kind, what str
 				stopReplay(times)
 			}
 			return true, err
+		case "misfed-before":
+			// the operator first feeds a file the machine cannot handle at all (a LATER step of this round,
+			// before the machine has an instance for it): refused as fatal, it must leave no trace - the
+			// restart after the genuine step must still be able to replay the log
+			bad := *o
+			bad.Type = "state_dkg_deals_await_confirmations"
+			bad.ID = "misfed-" + o.ID
+			if _, ferr := cl.Machines[i].ProcessOperation(bad, true); ferr == nil {
+				fail("misfed-operation-accepted", "an operation file of an unknown step was not refused", map[string]interface{}{"participant": plan.victim})
+			}
+			_, err = answerViaFile(cl, i, o)
+			remember(o)
+			script = append(script, opKind(string(o.Type)))
+			obs = append(obs, "-")
+			answered++
+			stopReplay(1)
+			return true, err
 		default:
 			_, err = answerViaFile(cl, i, o)
 		}
@@ -279,6 +296,9 @@ func scenarioC12(c *Ctx) {
 		for k := 0; k < 4; k++ {
 			plans = append(plans, c12Plan{victim: v, inStep: map[int]string{k: "computed-not-logged"}})
 			plans = append(plans, c12Plan{victim: v, inStep: map[int]string{k: "logged-not-written"}})
+			if k == 0 { // only before its first step has the machine no instance for the round
+				plans = append(plans, c12Plan{victim: v, inStep: map[int]string{k: "misfed-before"}})
+			}
 		}
 	}
 	for pi, p := range plans {
